@@ -421,14 +421,20 @@ async fn seg_cap(rng: &mut rand_chacha::ChaCha8Rng, events: &mut Vec<Value>) {
         return;
     }
     hub.register(&me, &net::addr_for(1), Endpoint::Real(a.clone()));
-    let p = net::hex_id(rng);
-    hub.register(&p, &net::addr_for(10), Endpoint::Fake(Fake { lookup_reply: FakeReply::Silent, ack_put: false }));
-    let _ = a.connect_peer(&net::addr_for(10)).await;
-    let n = 256 + rng.gen_range(1..20usize);
+    // the requests are spread over 1..4 silent destination peers: the cap is on the table, not per destination
+    let npeers = rng.gen_range(1..=4usize);
+    let mut ps = Vec::new();
+    for k in 0..npeers {
+        let p = net::hex_id(rng);
+        hub.register(&p, &net::addr_for(10 + k), Endpoint::Fake(Fake { lookup_reply: FakeReply::Silent, ack_put: false }));
+        let _ = a.connect_peer(&net::addr_for(10 + k)).await;
+        ps.push(p);
+    }
+    let n = 256 + rng.gen_range(1..20usize) * npeers;
     let mut hs = Vec::new();
     for i in 0..n {
         let a2 = a.clone();
-        let p2 = p.clone();
+        let p2 = ps[i % npeers].clone();
         hs.push(tokio::spawn(async move { a2.send_request(&p2, "verif", vec![(i % 250) as u8], Duration::from_millis(TIMEOUT_MS)).await.map(|_| ()).map_err(|e| e.to_string()) }));
     }
     tokio::time::sleep(Duration::from_millis(100)).await;
@@ -444,7 +450,7 @@ async fn seg_cap(rng: &mut rand_chacha::ChaCha8Rng, events: &mut Vec<Value>) {
     }
     net::settle().await;
     let end = a.verif_active_requests_len().await;
-    events.push(json!({"ev":"Cap","table":"rr","issued":n,"peak":peak,"refused":refused,"timed_out":timed_out,"end":end,"cap":256}));
+    events.push(json!({"ev":"Cap","table":"rr","issued":n,"peak":peak,"refused":refused,"timed_out":timed_out,"end":end,"cap":256,"peers":npeers}));
     let _ = a.stop().await;
 }
 
